@@ -18,3 +18,34 @@ pub fn hash_order(names: &[&str]) -> String {
 pub fn pure(names: &[&str]) -> String {
     names.join(",")
 }
+
+/// BAD (C19-R1): Debug output of a HashSet shows its iteration order
+pub fn hash_debug(ids: &[u64]) -> String {
+    let s: std::collections::HashSet<u64> = ids.iter().copied().collect();
+    format!("{:?}", s)
+}
+
+/// BAD (C19-R1): consuming iteration over a HashSet
+pub fn hash_into_iter(ids: &[u64]) -> Vec<u64> {
+    let s: std::collections::HashSet<u64> = ids.iter().copied().collect();
+    let mut out = Vec::new();
+    for v in s {
+        out.push(v);
+    }
+    out
+}
+
+/// OK: a hash collection used for membership only; the result is a function of the arguments
+pub fn hash_membership(ids: &[u64]) -> Vec<u64> {
+    let mut seen = std::collections::HashSet::new();
+    let mut out = Vec::new();
+    for v in ids {
+        if seen.insert(*v) {
+            out.push(*v);
+        }
+    }
+    if seen.contains(&0) {
+        out.push(seen.len() as u64);
+    }
+    out
+}
